@@ -7,7 +7,7 @@ from typing import List, Optional
 from ..cfg import TEST, STMT
 from ..model import stmt_key, AnalysisError
 from ..report import rule, Collector
-from .common import RuleCtx, where_of, line_of
+from .common import RuleCtx, where_of, line_of, untag
 from .fresh import _af
 from .solver import guard_facts
 
@@ -47,8 +47,10 @@ def r_perm(ctx: RuleCtx, col: Collector):
                 pairs += [_P(n, a, b) for a, b in zip(t.elts, n.value.elts)]
             else:
                 pairs.append(_P(n, t, n.value))
-    perm_w = [x for x in pairs if norm(x.targets[0]) == wname and isinstance(x.value, ast.Subscript) and norm(x.value.value) == wname]
-    perm_q = [x for x in pairs if norm(x.targets[0]) == qname and isinstance(x.value, ast.Subscript) and norm(x.value.value) == qname]
+    # the sorted arrays may be rebound to the same names or to the returned ones (W = Wraw[isort]): what is permuted is the
+    # pair that the sorting function was given
+    perm_w = [x for x in pairs if norm(x.targets[0]) == wname and isinstance(x.value, ast.Subscript) and isinstance(x.value.value, ast.Name)]
+    perm_q = [x for x in pairs if norm(x.targets[0]) == qname and isinstance(x.value, ast.Subscript) and isinstance(x.value.value, ast.Name)]
     if not perm_w or not perm_q:
         col.bad(where_of(resp), resp.rel, line_of(resp.node), "EigenSolve: values and vectors sorted",
                 "the sorting permutation is not applied to both the eigenvalues and the eigenvectors")
@@ -66,7 +68,8 @@ def r_perm(ctx: RuleCtx, col: Collector):
                 f"vector i no longer belongs to value i")
     # the index is the result of the sorting function applied to (values, vectors)
     d = [n for n in ast.walk(resp.node) if isinstance(n, ast.Assign) and norm(n.targets[0]) == iw]
-    if d and isinstance(d[0].value, ast.Call) and [norm(a) for a in d[0].value.args] == [wname, qname]:
+    src_w, src_q = norm(perm_w[0].value.value), norm(perm_q[0].value.value)
+    if d and isinstance(d[0].value, ast.Call) and [norm(a) for a in d[0].value.args] == [src_w, src_q]:
         col.ok(where_of(resp), resp.rel, line_of(d[0]), f"'{iw}' computed by the sorting function from (values, vectors)", "")
     else:
         col.bad(where_of(resp), resp.rel, line_of(resp.node), f"'{iw}' computed by the sorting function from (values, vectors)",
@@ -135,6 +138,11 @@ def r_norm_view(ctx: RuleCtx, col: Collector):
                 and isinstance(d.targets[0], ast.Name) and d.targets[0].id == nm]
         others = [d for d in ast.walk(resp.node) if isinstance(d, ast.Name) and d.id == nm and isinstance(d.ctx, ast.Store)]
         full = bool(defs) and len(others) == len(defs) and all(norm(d) in counts for d in defs)
+    # for [i,] q in [enumerate](Q.T): the rows of the transpose are the columns of Q, all of them, as views
+    from .common import LoopElems
+    le = LoopElems(lp.target, lp.iter)
+    col_views = {nm for nm, seq in le.elems.items() if norm(seq) in (f"{qname}.T", f"{qname}.transpose()")}
+    full = full or bool(col_views)
     if full:
         col.ok(where_of(resp), resp.rel, line_of(lp), "normalisation loop ranges over all modes", it)
     else:
@@ -146,6 +154,8 @@ def r_norm_view(ctx: RuleCtx, col: Collector):
     for s in scaled:
         t = s.target
         if isinstance(t, ast.Subscript) and norm(t.value) == qname:
+            okv = True
+        if isinstance(t, ast.Name) and t.id in col_views:
             okv = True
         if isinstance(t, ast.Name):
             # defined in the loop as a basic column slice of the returned matrix
@@ -199,7 +209,32 @@ def r_shift_pair(ctx: RuleCtx, col: Collector):
             col.bad(where_of(f), f.rel, line_of(call), f"{call.func.attr}: which={U(wh[0])} in shift-invert mode",
                     f"in shift-invert mode 'which' selects among nu = 1/(lambda - sigma): only 'LM' (the default) returns the "
                     f"eigenvalues closest to the shift on both sides; {U(wh[0])} returns those on one side of it only")
-        if mk and norm(mk[0]) == m_in_shift and a0 == a_in_shift:
+        # M=<name> denotes the matrix of the shift when it is that name, or when on every path to the call it was last set
+        # by a plain copy of it (B = Bloc after a helper was inlined); a copy on some paths only does not make them equal
+        same = {m_in_shift}
+        if mk and isinstance(mk[0], ast.Name) and mk[0].id != m_in_shift:
+            mname = mk[0].id
+            cfg_ = ctx.flow.cfg(f)
+            st_ = call
+            while not isinstance(st_, ast.stmt):
+                st_ = getattr(st_, "_parent", None)
+            cn_ = cfg_.node_of(st_)
+            assigns = [n_ for n_ in ast.walk(f.node) if isinstance(n_, ast.Assign) and any(
+                isinstance(x_, ast.Name) and x_.id == mname for t_ in n_.targets for x_ in ast.walk(t_))]
+            copies = [n_ for n_ in assigns if len(n_.targets) == 1 and isinstance(n_.value, ast.Name) and n_.value.id == m_in_shift]
+            nodes_ = [cfg_.node_of(n_) for n_ in copies]
+            others_ = [cfg_.node_of(n_) for n_ in assigns if n_ not in copies]
+            overwritten = any(o_ is not None and cn_ is not None and cn_ in cfg_.reachable([o_]) and
+                              any(x_ is not None and o_ in cfg_.reachable([s2 for s2, _l in x_.succ]) for x_ in nodes_) for o_ in others_)
+            if copies and not overwritten and cn_ is not None and all(x_ is not None for x_ in nodes_) and \
+                    cfg_.must_pass(cfg_.entry, cn_, nodes_):
+                # ... and the shift matrix is not changed between such a copy and the call
+                later = [n_ for n_ in ast.walk(f.node) if isinstance(n_, ast.Assign) and any(
+                    isinstance(x_, ast.Name) and x_.id == m_in_shift for t_ in n_.targets for x_ in ast.walk(t_))]
+                if not any(cfg_.node_of(l_) is not None and any(
+                        cn_ in cfg_.reachable([cfg_.node_of(l_)]) and cfg_.node_of(l_) in cfg_.reachable([nd_]) for nd_ in nodes_) for l_ in later):
+                    same.add(mname)
+        if mk and norm(mk[0]) in same and a0 == a_in_shift:
             col.ok(where_of(f), f.rel, line_of(call), construct, "same pencil in the shift and in the eigensolver")
         else:
             col.bad(where_of(f), f.rel, line_of(call), construct,
